@@ -167,6 +167,12 @@ def sx(schema):
         yield model("undefined-root:mutation", "default-name", replace(schema, mutation="Mutation", schema_block=True))
     if schema.type("Subscription") is None:
         yield model("undefined-root:subscription", "default-name", replace(schema, subscription="Subscription", schema_block=True))
+    # ... named through `extend schema` (last definition of the SDL, and followed by another extension)
+    if schema.mutation is None:
+        yield raw("undefined-root:mutation", "via-extend-schema", "extend schema { mutation: ZzUndefinedRoot }")
+        yield raw("undefined-root:mutation", "via-extend-schema-then-more", "extend schema { mutation: ZzUndefinedRoot }\nextend type %s { zzLater: Int }" % schema.query)
+    if schema.subscription is None:
+        yield raw("undefined-root:subscription", "via-extend-schema", "extend schema { subscription: ZzUndefinedRoot }")
     # objects without fields
     yield model("no-fields:object", "plain", schema.add_type(TypeDef("OBJECT", "ZzEmpty")))
     yield model("no-fields:object", "query-root", with_type(schema, replace(q, fields=())))
